@@ -82,8 +82,8 @@ TQuiescent ==
            \/ rw /\ PrintT(<<"TVKNOWN", "waitcond-rlocker-cancel", l>>)
   /\ UNCHANGED <<vars, pend>>
 
-\* the census is taken while every context the driver did not cancel is still live: WaitCond's watcher goroutine must
-\* be gone as soon as WaitCond has returned
+\* the census is taken after every call has returned and every context that can be cancelled has been cancelled; some
+\* waits used context.Background(): their watcher goroutines must be gone too (WaitCond cancels its derived context)
 TFinal == IsEv("final") /\ Consume /\ Cur.leaked = 0 /\ Cur.returned /\ UNCHANGED <<vars, pend>>
 
 TVNext == TReset \/ TCall \/ TPred \/ TRet \/ TSet \/ TCancel \/ TCancelled \/ TBad \/ TQuiescent \/ TFinal
